@@ -12,9 +12,11 @@ T0 = datetime(2020, 1, 1, tzinfo=UTC)
 TIMES = [T0 + timedelta(microseconds=i) for i in (0, 1, 2)] + [T0 + timedelta(days=d) for d in (-20000, -1, 1, 400)] + [T0 + timedelta(seconds=1, microseconds=999999)]
 # two instants that are the second 01:30 of a DST fold somewhere (New York 2021-11-07, London 2021-10-31)
 TIMES += [datetime(2021, 11, 7, 6, 30, tzinfo=UTC), datetime(2021, 10, 31, 1, 30, tzinfo=UTC)]
+EPOCH = datetime(1970, 1, 1, tzinfo=UTC)
+TIMES += [EPOCH]  # the epoch itself: its timestamp 0.0 is falsy
 OFFSETS = [UTC, timezone(timedelta(hours=5, minutes=45)), timezone(timedelta(hours=-8)), timezone(timedelta(hours=10, minutes=30))]
 MEAS = ["_default", "m1", "m2", "a,b", "mé", "m1 "]  # incl. a name that differs from another only by trailing white space
-TKEYS = ["a", "b", "t x"]
+TKEYS = ["a", "b", "t x", "a.b"]  # "a.b": select("tags.a.b") must not be read as key "a"
 TVALS = [None, "", "x", "X", "xy", "x\ny", "a,b", "x\u2028y", "x\x1dy\x85", '"q', "f_1"]  # incl. a value that looks like a (compact) field key
 FKEYS = ["a", "f", "_t"]
 FVALS = [None, 0, -0.0, 1, 2, -1.5, 2.0, math.inf]
@@ -27,7 +29,7 @@ REFLAGS = [0, 2, 16]  # none, IGNORECASE, DOTALL
 W_MEAS = ["m1", "m1", "m1", "_default", "_default", "a,b", "m2", "mé", "m1 "]
 W_TVALS = [None, "", "x", "x", "x", "X", "xy", "xy", "x\ny", "a,b", "x\u2028y", "x\x1dy\x85", '"q', "f_1"]  # incl. a leading quote character and characters str.splitlines() breaks on but csv does not
 W_FVALS = [None, 0, -0.0, 1, 1, 1, 2, 2, -1.5, 2.0, math.inf]
-W_TKEYS = ["a", "a", "a", "b", "t x"]
+W_TKEYS = ["a", "a", "a", "a", "a", "a", "b", "b", "t x", "t x", "a.b"]
 W_FKEYS = ["a", "a", "a", "f", "_t"]
 
 
